@@ -23,7 +23,7 @@ import itertools
 from fractions import Fraction
 
 from ..model import AnalysisError
-from ..symex import Symex, Obj, Ent
+from ..symex import Symex, Obj, Ent, Func
 from ..terms import T, t_mul, t_add, t_pow, expand_products, rebuild, is_num, show, subterms, sym
 
 EXPLANATION = (
@@ -33,9 +33,12 @@ EXPLANATION = (
     "exponents that carry their assumptions). For every scenario the result must (1) be one of the normal forms of the "
     "reference rewriting written down from the property (pair of unitary occurrences sharing an index in the same "
     "position, index not a target, occurring exactly twice -> delta of the two other indices; a pair that shares BOTH "
-    "indices with neither occurring anywhere else is left untouched (its value is the dimension of the space, not 1); "
+    "indices with neither occurring anywhere else is left untouched (its value is the dimension of the space, not 1); with "
+    "Einstein targets a pair whose delta is already an object of the term stays if one of the delta's indices occurs exactly "
+    "twice (delta*delta = delta would turn it into a target index); "
     "repeated to the fixed point; all other objects, prefactors, exponents, denominators kept), (2) have the same numerical value as the input "
-    "for an orthogonal 2x2 matrix and every assignment of the target indices (exact rationals), (3) carry the "
+    "for an orthogonal 2x2 matrix and every assignment of the target indices (exact rationals), with the sum convention "
+    "also the same target indices, (3) carry the "
     "assumptions of the input expression with no mixing of assumptions on the way. R20a: eligibility guards and delta "
     "indices (first/second position, mixed positions, shared index on a third object / third unitary tensor / provided "
     "target, only 2-index tensors). R20b: rebuilding (both occurrences removed, every other object multiplied back once "
@@ -44,19 +47,24 @@ EXPLANATION = (
     "exponent multiplicity and denominators, exact tensor name, provided targets instead of Einstein targets, "
     "Term._idx_counter/idx/target/contracted against a direct count, delta evaluation exactly once and only on request, "
     "on the whole result, with a target set that protects the true targets - spin-labelled ones and provided targets "
-    "that occur twice included). Thorough tier: "
-    "the same three comparisons on every generated term with 2-3 unitary factors over three indices, an optional "
-    "remainder object and optional provided targets, each also with delta evaluation requested (value only).")
+    "that occur twice included; func.evaluate_deltas itself is evaluated from its source, inside simplify_unitary and directly "
+    "on model products against the contract written down here: killable index substituted unless protected, a delta whose two "
+    "indices are contracted and sit on no other object is kept because its double sum is the dimension of the space). "
+    "Thorough tier: "
+    "the same three comparisons on every generated term with 2-4 unitary factors over three indices, an optional "
+    "remainder object or delta and optional provided targets (also the empty set), each also with delta evaluation requested "
+    "(value only).")
 ASSUMPTIONS = [
-    "bounded: the scenarios listed in the module (thorough: all terms of 2-3 unitary factors over 3 indices with an optional "
-    "remainder object of <= 2 indices and <= 1 provided target); one index space, uniform spin per scenario",
+    "bounded: the scenarios listed in the module (thorough: all terms of 2-4 unitary factors over 3 indices with an optional "
+    "remainder object of <= 2 indices or a delta and <= 1 provided target or the empty provided set); one index space, uniform "
+    "spin per scenario",
     "the containers are modelled: Expr/Term/Obj are records (objects, exponent, idx, base_and_exponent, assumptions), products "
-    "merge equal bases like sympy, KroneckerDelta(p, p) = 1 and delta**n = delta; func.evaluate_deltas is modelled by its "
-    "contract (targets = indices on exactly one object of the product if target_idx is None, else get_symbols(target_idx) "
-    "which yields spin-less indices for a string; killable index substituted unless protected)",
+    "merge equal bases like sympy, KroneckerDelta(p, p) = 1 and delta**n = delta; sympy's isinstance(Add/Mul/Pow), .args, "
+    ".func, .atoms(Index), .has, .subs(index, index) are modelled on these products; get_symbols(<str>) yields spin-less "
+    "indices; func.evaluate_deltas and the KroneckerDelta properties it reads are evaluated from their source",
     "orthogonality is represented by one fixed rational rotation matrix (non-symmetric), dimension 2",
-    "excluded from the decided domain: terms without provided targets whose Einstein targets change under the rewriting "
-    "(delta_pp = 1 or delta**2 = delta remove occurrences, e.g. U_ki^2 X_i -> X_i)",
+    "excluded from the decided domain: terms without provided targets whose Einstein targets change because delta_pp = 1 "
+    "removes two occurrences (U_ki^2 X_i -> X_i is the documented upstream behaviour)",
 ]
 
 FN = "simplify:simplify_unitary"
@@ -173,7 +181,7 @@ class World:
         if key not in self.index:
             name, _, spin = key.partition("_")
             o = Ent(None, key)
-            o.attrs.update(name=name, spin=spin, space="occ", dummy_index=0)
+            o.attrs.update(name=name, spin=spin, space="occ", dummy_index=0, _classes=("Index", "Symbol", "Basic"))
             self.index[key] = o
         return self.index[key]
 
@@ -278,6 +286,9 @@ def model_evaluate_deltas(monos, protected):
             for b in sorted((b for b in d if is_delta(b) and d[b] >= 1), key=repr):
                 p, k = b.args[1]
                 if k not in tg:
+                    if p not in tg and not any(p in keys_of(o) or k in keys_of(o) for o in d if o != b):
+                        # both indices contracted and on no other object: sum_pk delta_pk is the dimension, the delta stays
+                        continue
                     d = substitute(d, k, p)
                     break
                 if p not in tg:
@@ -306,12 +317,86 @@ class Run:
 
     def __init__(self, ctx, what):
         self.w = None
-        self.sx = Symex(ctx.model, inline=lambda q: True, what=what, attr_hook=self.attr_hook, max_paths=64, hooks={
+        self.in_evd = False
+        self.sx = Symex(ctx.model, inline=lambda q: True, what=what, attr_hook=self.attr_hook, max_paths=64, oracle=self.oracle,
+                        isinstance_hook=self.isinst, hooks={
+            "Mul": self.h_mul, "Add": self.h_add, "atoms": self.h_atoms, "has": self.h_has, "subs": self.h_subs, "func": self.h_func,
             "Expr": self.h_expr, "KroneckerDelta": self.h_delta, "Pow": self.h_pow, "evaluate_deltas": self.h_evd,
             "sort_idx_canonical": self.h_sortkey, "get_symbols": self.h_get_symbols})
         self.sx.strict_names = True   # an undefined name is a NameError of the library, not an external value
+        self.sx.on_start = self._reset
+
+    def _reset(self, sx):
+        self.in_evd = False
+
+    # sympy-level view of the model values --------------------------------------
+    def isinst(self, sx, obj, cname):
+        if not isinstance(obj, T):
+            return None
+        if has_cont(obj):
+            return cname in ("Expr", "Container")
+        if not _is_value(obj):
+            return None
+        return {"Add": obj.op == "add", "Mul": obj.op == "mul", "Pow": obj.op == "pow", "KroneckerDelta": is_delta(obj),
+                "Basic": True}.get(cname, False)
+
+    def h_atoms(self, sx, args, kw):
+        recv = args[0]
+        if isinstance(recv, Ent):
+            return {recv}
+        if is_num(recv):
+            return set()
+        if isinstance(recv, T) and _is_value(recv):
+            return {self.w.ix(k) for x in subterms(recv) if x.op == "tens" for k in x.args[1]}
+        return NotImplemented
+
+    def h_has(self, sx, args, kw):
+        recv, xs = args[0], args[1:]
+        if not all(isinstance(x, Ent) for x in xs):
+            return NotImplemented
+        if isinstance(recv, Ent):
+            return any(x is recv for x in xs)
+        if is_num(recv):
+            return False
+        if isinstance(recv, T) and _is_value(recv):
+            ks = {k for t in subterms(recv) if t.op == "tens" for k in t.args[1]}
+            return any(x.__dict__["name"] in ks for x in xs)
+        return NotImplemented
+
+    def h_func(self, sx, args, kw):
+        recv = args[0]
+        if isinstance(recv, T) and not has_cont(recv) and _is_value(recv) and recv.op in ("mul", "add") and not kw:
+            return from_monos(monomials((t_mul if recv.op == "mul" else t_add)(*args[1:])))
+        return NotImplemented
+
+    def h_subs(self, sx, args, kw):
+        if len(args) == 3 and isinstance(args[1], Ent) and isinstance(args[2], Ent) and not kw:
+            recv, old, new = args
+            if is_num(recv):
+                return recv
+            if isinstance(recv, T) and _is_value(recv):
+                return from_monos([(c, substitute(d, old.__dict__["name"], new.__dict__["name"])) for c, d in monomials(recv)])
+        return NotImplemented
+
+    # comparisons of two model values (sympy objects of the library) are structural, never open
+    def oracle(self, sx, atom):
+        if atom.op == "cmp" and atom.args[0] in ("==", "is"):
+            a, b = atom.args[1], atom.args[2]
+            if all(_is_value(x) for x in (a, b)):
+                return expr_key(monomials(a)) == expr_key(monomials(b))
+        if atom.op == "cmp" and atom.args[0] == "in" and isinstance(atom.args[2], (frozenset, tuple)):
+            a, coll = atom.args[1], atom.args[2]
+            if all(_is_value(x) for x in (a, *coll)):
+                return any(expr_key(monomials(a)) == expr_key(monomials(b)) for b in coll)
+        return None
 
     # hooks ------------------------------------------------------------------
+    def h_mul(self, sx, args, kw):
+        return t_mul(*[self.w.unwrap(a)[0] if isinstance(a, (T, Rec)) else a for a in args])
+
+    def h_add(self, sx, args, kw):
+        return t_add(*[self.w.unwrap(a)[0] if isinstance(a, (T, Rec)) else a for a in args])
+
     def h_expr(self, sx, args, kw):
         kw = dict(kw)
         e = args[0] if args else kw.pop("e", 0)
@@ -355,44 +440,82 @@ class Run:
         return NotImplemented
 
     def h_evd(self, sx, args, kw):
-        kw = dict(kw)
-        e = args[0] if args else kw.pop("expr", None)
-        tg = args[1] if len(args) > 1 else kw.pop("target_idx", None)
+        """func.evaluate_deltas is evaluated from its source; the outermost call is logged."""
+        if self.in_evd:
+            return NotImplemented
+        e = args[0] if args else kw.get("expr", None)
+        tg = args[1] if len(args) > 1 else kw.get("target_idx", None)
         plain = (isinstance(e, T) and not has_cont(e)) or not isinstance(e, (T, Obj))
-        if not plain:
-            # a container is neither an Add nor a Mul: the library function hands it back untouched
-            sx.effects.append(T("evd", False, "container"))
-            return e
-        v, _ = self.w.unwrap(e)
         if tg is None:
-            prot, shown = None, None
+            shown = None
         elif isinstance(tg, str):
-            # get_symbols(<str>) builds spin-less indices
-            prot = set(split_names(tg))
             shown = tg
         elif isinstance(tg, (list, tuple, set, frozenset)) and all(isinstance(x, Obj) for x in tg):
-            prot = {x.__dict__["name"] for x in tg}
-            shown = tuple(sorted(prot))
+            shown = tuple(sorted(x.__dict__["name"] for x in tg))
         else:
-            prot, shown = set(), "?" + show(sx_freeze(tg))
-        sx.effects.append(T("evd", True, repr(shown)))
-        res = model_evaluate_deltas(monomials(v), prot)
-        return t_add(*[t_mul(_num(c), *[t_pow(b, x) for b, x in sorted(d.items(), key=lambda y: repr(y[0]))]) for c, d in res]) \
-            if res else 0
+            shown = "?" + show(sx_freeze(tg))
+        sx.effects.append(T("evd", plain, repr(shown)))
+        fn = sx.model.fn("func:evaluate_deltas")
+        self.in_evd = True
+        try:
+            return sx._invoke(Func(fn, [], fn._module, fn._qual), list(args), dict(kw), fn)
+        finally:
+            self.in_evd = False
 
     def attr_hook(self, sx, obj, attr, node):
         if isinstance(obj, T) and attr in ("terms", "sympy", "assumptions", "provided_target_idx") and has_cont(obj):
             v, seen = self.w.unwrap(obj)
             ak = seen[0]
             if attr == "sympy":
-                return v
+                return from_monos(monomials(v))
             if attr == "assumptions":
                 return self.w.adict(ak)
             if attr == "provided_target_idx":
                 return self.w.adict(ak)["target_idx"]
             ms = monomials(v) or [(Fraction(0), {})]
             return tuple(self.w.term_rec(c, sorted(d.items(), key=lambda y: repr(y[0])), ak) for c, d in ms)
+        if isinstance(obj, T) and obj.op == "tens" and attr in ("idx", "args", "indices"):
+            return tuple(self.w.ix(k) for k in obj.args[1])
+        if isinstance(obj, T) and not has_cont(obj) and _is_value(obj):
+            if attr == "args" and obj.op in ("mul", "add", "pow"):
+                return tuple(obj.args)
+            if attr == "func" and obj.op in ("mul", "add"):
+                f = t_mul if obj.op == "mul" else t_add
+                return lambda sx_, a, k: from_monos(monomials(f(*a)))
+            if is_delta(obj):
+                # properties of the library's KroneckerDelta class are evaluated from their source
+                m = sx.find_method("sympy_objects:KroneckerDelta", attr)
+                if m is not None and any("property" in ast_name(d) for d in m[0].decorator_list):
+                    fn = m[0]
+                    return sx._invoke(Func(fn, [], fn._module, fn._qual, bound=obj), [], {}, node)
         return NotImplemented
+
+
+def ast_name(d):
+    import ast
+    return ast.unparse(d)
+
+
+def from_monos(monos):
+    """Canonical sum of products (what sympy holds after automatic merging of equal bases)."""
+    if not monos:
+        return 0
+    return t_add(*[t_mul(_num(c), *[t_pow(b, x) for b, x in sorted(d.items(), key=lambda y: repr(y[0]))]) for c, d in monos])
+
+
+def _is_value(x):
+    """A model value: number or arithmetic over tensors (no container image, no foreign term)."""
+    if is_num(x):
+        return True
+    if not isinstance(x, T):
+        return False
+    if x.op == "tens":
+        return True
+    if x.op in ("mul", "add"):
+        return all(_is_value(y) for y in x.args)
+    if x.op == "pow":
+        return _is_value(x.args[0]) and isinstance(x.args[1], int)
+    return False
 
 
 def sx_freeze(v):
@@ -412,7 +535,7 @@ def parse_term(s, spin=""):
         name, rest = tok.split(":")
         idx, _, ex = rest.partition("^")
         keys = [ch + ("_" + spin if spin else "") for ch in idx]
-        facs.append((tens(name, keys), int(ex) if ex else 1))
+        facs.append((delta(*keys) if name == "delta" else tens(name, keys), int(ex) if ex else 1))
     return coeff, facs
 
 
@@ -471,7 +594,7 @@ def einstein(d):
 
 # ------------------------------------------------------------------------------------------------ reference behaviour
 
-def rewrites(d, targets, uname):
+def rewrites(d, targets, uname, provided):
     """All single replacements the property allows on the product d."""
     cnt = counts(d)
     occ = []
@@ -492,10 +615,14 @@ def rewrites(d, targets, uname):
                 # the pair shares BOTH indices and neither occurs anywhere else: delta_qq = 1 would drop the second
                 # index (and, if it is contracted, its sum: the value is the dimension of the space) - left untouched
                 continue
+            dl = delta(q, r)
+            if not provided and dl != 1 and d.get(dl, 0) >= 1 and (cnt[q] == 2 or cnt[r] == 2):
+                # Einstein targets: the delta is already an object of the term, delta * delta = delta would take away one
+                # occurrence of q and r and turn an index that occurs twice into a target index - left untouched
+                continue
             n = dict(d)
             for t in (a, b):
                 n[t] -= 1
-            dl = delta(q, r)
             if dl != 1:
                 n[dl] = n.get(dl, 0) + 1
             n = {k: (1 if is_delta(k) and v >= 1 else v) for k, v in n.items() if v != 0}
@@ -518,7 +645,7 @@ def normal_forms(d, targets, uname, provided):
         seen.add(k)
         if not provided and einstein(x) != targets:
             raise _OutOfDomain("Einstein targets change under the rewriting")
-        nxt = rewrites(x, targets, uname)
+        nxt = rewrites(x, targets, uname, provided)
         if not nxt:
             nfs[k] = x
         stack.extend(nxt)
@@ -638,6 +765,12 @@ def check_scenario(ctx, run, scn, fnnode):
                   key=f"{sid} value")
     except _Unknown as e:
         ctx.bad(rule, fnnode, f"{what}: the result contains a factor that is no tensor of the term: {e}", key=f"{sid} value")
+    # (2b) with the sum convention the result must have the target indices of the input
+    if scn.akey[3] is None:
+        wrong = [(c, d) for c, d in got if all(is_tens(b) for b in d) and einstein(d) != tg]
+        ctx.check(rule, fnnode, not wrong, f"{what}: target indices {sorted(tg)} by sum convention kept",
+                  f"{what}: the result {show_monos(wrong[:1])} has the target indices {sorted(einstein(wrong[0][1])) if wrong else ''} by sum "
+                  f"convention, the input has {sorted(tg)}", key=f"{sid} targets")
     # (3) assumptions
     ok = seen == [scn.akey] and not w.clash
     ctx.check(rule, fnnode, ok, f"{what}: assumptions of the expression kept",
@@ -673,6 +806,14 @@ SCENARIOS = [
     Scenario("mixed-rem", "R20a", "common index in different positions", "U:ik U:kj X:ij", changed=False),
     Scenario("later-pair", "R20a", "the first pair of unitary tensors shares nothing", "U:mi U:kj U:kl", changed=True),
     Scenario("later-pair-2", "R20a", "the first pairs are blocked, a later one is not", "U:mi U:mj U:mk U:ln U:la", changed=True),
+    Scenario("einstein-repeat", "R20a", "four unitary tensors that generate the same delta twice", "U:ij U:ik U:lj U:lk", changed=True),
+    Scenario("einstein-repeat-6", "R20a", "six unitary tensors that generate the same delta three times", "U:ij U:ik U:lj U:lk U:mj U:mk", changed=True),
+    Scenario("delta-present", "R20a", "the delta of the pair is already an object, its indices occur twice", "delta:jk U:ij U:ik", changed=False),
+    Scenario("delta-present-second", "R20a", "the delta of the pair is already an object (second position)", "3 U:ji U:ki delta:jk", changed=False),
+    Scenario("delta-present-3", "R20a", "the delta of the pair is already an object, its indices occur three times", "delta:jk U:ij U:ik X:jk", changed=True),
+    Scenario("delta-present-half", "R20a", "the delta is already an object, one of its indices occurs twice", "delta:jk U:ij U:ik X:j", changed=False),
+    Scenario("delta-present-provided", "R20a", "the delta of the pair is already an object, targets provided", "delta:jk U:ij U:ik", target="", changed=True),
+    Scenario("repeat-provided", "R20a", "the same delta twice, targets provided", "U:ij U:ik U:lj U:lk", target="", changed=True),
     Scenario("both", "R20a", "one pair per position", "U:ki U:kj U:ml U:nl", changed=True),
     Scenario("not-2d", "R20a", "three-index tensor of that name", "U:kij U:kl", raises="NotImplementedError"),
     Scenario("not-2d-single", "R20a", "one-index tensor of that name", "U:k U:ki U:kj", raises="NotImplementedError"),
@@ -714,6 +855,11 @@ SCENARIOS = [
     Scenario("evd-provided", "R20c", "delta evaluation requested, provided targets that occur twice", "U:ki U:kj X:i X:j", target="ij", ed=True),
     Scenario("evd-provided-one", "R20c", "delta evaluation requested, one provided target on the delta", "3 U:ik U:jk X:i Y:jm Z:m", target="i", ed=True),
     Scenario("evd-provided-spin", "R20c", "delta evaluation requested, provided spin-labelled targets", "U:ki U:kj X:il Y:jl", target="ij", spin="b", ed=True),
+    Scenario("evd-trace", "R20c", "delta evaluation requested, both indices of the delta contracted and on no other object", "U:jk U:jl Y:i", target="i", ed=True),
+    Scenario("evd-trace-empty", "R20c", "delta evaluation requested, scalar with an empty provided target set", "2 U:ij U:ik", target="", ed=True),
+    Scenario("evd-trace-4", "R20c", "delta evaluation requested, tr(U^T U U^T U)/3", "1/3 U:ij U:ik U:lj U:lk", target="", ed=True),
+    Scenario("evd-trace-second", "R20c", "delta evaluation requested, trace over second positions next to a remainder", "U:kj U:lj X:im Y:m", target="i", ed=True),
+    Scenario("evd-repeat", "R20c", "delta evaluation requested, the same delta generated twice (Einstein targets)", "U:ij U:ik U:lj U:lk", ed=True),
     Scenario("evd-provided-none", "R20c", "delta evaluation requested, provided targets not on the delta", "U:ki U:kj X:il Y:jl", target="l", ed=True),
 ]
 
@@ -730,7 +876,7 @@ def scenarios(ctx, rule):
         except _OutOfDomain as e:
             raise AnalysisError(f"C20 scenario {scn.sid} is outside the decided domain: {e}")
         n += 1
-    ctx.floor(rule, "model expressions evaluated", n, {"R20a": 24, "R20b": 13, "R20c": 19}[rule])
+    ctx.floor(rule, "model expressions evaluated", n, {"R20a": 32, "R20b": 13, "R20c": 24}[rule])
 
 
 def r20c_request(ctx):
@@ -793,24 +939,72 @@ def r20c_term_tables(ctx):
                       key=f"{meth} {text} {target}")
 
 
+EVD_CASES = [
+    # (sum of products, target_idx handed over: None | string of provided index letters, spin)
+    (["delta:kl Y:i"], "i", ""), (["2 delta:jk"], "", ""), (["delta:jk X:j"], "", ""), (["delta:jk X:k"], "", ""),
+    (["delta:ij X:jl"], None, ""), (["delta:ij X:i X:j"], "ij", ""), (["delta:ij X:i X:j"], "i", ""), (["delta:ij X:i X:j"], "j", ""),
+    (["delta:ij delta:kl X:jk"], "", ""), (["delta:ij delta:kl"], "", ""), (["delta:ij delta:kl X:m"], "m", "a"),
+    (["delta:ij delta:jk X:k"], "i", ""), (["delta:ij X:ij", "2 delta:kl Y:m"], "m", ""), (["delta:ij X:l"], None, "b"),
+    (["2 delta:ij"], "i", ""), (["delta:ij Y:m"], "jm", ""), (["delta:ij delta:ik X:i"], "i", ""),
+    (["1/3 delta:jk U:lj U:lk"], "", ""), (["delta:jk U:lj U:lk"], None, ""), (["X:ij Y:jk"], "ik", ""), (["delta:ij"], "", ""),
+]
+
+
+def r20c_evaluate_deltas(ctx):
+    """func.evaluate_deltas (evaluated from its source) on model products: the value for every assignment of the targets and
+    the form demanded by the contract written down in ``model_evaluate_deltas`` (a delta whose two indices are contracted and
+    sit on no other object stays: its double sum is the dimension of the space)."""
+    rule = "R20c"
+    fnnode = ctx.model.fn("func:evaluate_deltas")
+    n = 0
+    for terms, tgt, spin in EVD_CASES:
+        scn = Scenario("evd", rule, "", terms, target=tgt, spin=spin)
+        run = Run(ctx, "evaluate_deltas")
+
+        def make():
+            run.w = World()
+            run.in_evd = True   # the function itself is the subject here: not logged, not re-entered through the hook
+            return dict(expr=from_monos(scn.monos()), target_idx=None if tgt is None else [run.w.ix(k) for k in scn.akey[3]])
+        outs = run.sx.run(fnnode, make)
+        what = f"evaluate_deltas({scn.text}, targets {'by sum convention' if tgt is None else '(' + ','.join(scn.akey[3]) + ')'})"
+        n += 1
+        if len(outs) != 1 or outs[0].kind != "return" or not (is_num(outs[0].value) or _is_value(outs[0].value)):
+            ctx.bad(rule, fnnode, f"{what}: no single value: {[repr(o)[:200] for o in outs]}", key=f"evd {scn.text} {tgt}")
+            continue
+        got = monomials(outs[0].value)
+        prot = None if tgt is None else set(scn.akey[3])
+        want = model_evaluate_deltas(scn.monos(), prot)
+        tg = set(scn.akey[3]) if tgt is not None else set().union(*[einstein_per_object(d) for c, d in scn.monos()])
+        v_in = value(scn.monos(), tg, UNAME)
+        if value(want, tg, UNAME) != v_in:
+            raise AnalysisError(f"C20: the contract of evaluate_deltas written down in the module does not preserve the value of {scn.text}")
+        ctx.check(rule, fnnode, value(got, tg, UNAME) == v_in, f"{what} = {show_monos(got)}: value unchanged",
+                  f"{what} = {show_monos(got)}: the value changes (a sum over an index that only sits on the delta is lost or a "
+                  f"target index removed); expected {show_monos(want)}", key=f"evd value {scn.text} {tgt}")
+        ctx.check(rule, fnnode, expr_key(got) == expr_key(want), f"{what}: form {show_monos(want)}",
+                  f"{what} = {show_monos(got)}, the contract demands {show_monos(want)}", key=f"evd form {scn.text} {tgt}")
+    ctx.floor(rule, "products handed to evaluate_deltas", n, 21)
+
+
 # ------------------------------------------------------------------------------------------------ thorough sweep
 
 def sweep(ctx):
     fnnode = ctx.model.fn(FN)
     letters = "ijk"
     pairs = [a + b for a in letters for b in letters]
-    rems = [None] + [a for a in letters] + [a + b for a in letters for b in letters]
+    rems = [None] + [f"X:{a}" for a in letters] + [f"X:{a}{b}" for a in letters for b in letters]
+    dls = ["delta:ij", "delta:ik", "delta:jk"]
     n = skipped = 0
     bad = {}
     run = Run(ctx, "simplify_unitary[sweep]")
-    for nu in (2, 3):
+    for nu in (2, 3, 4):
         for us in itertools.combinations_with_replacement(pairs, nu):
-            for rem in (rems if nu == 2 else rems[:4]):
-                for target in (None, "i", "j", "k"):
+            for rem in (rems + dls if nu == 2 else rems[:4] + dls if nu == 3 else rems[:1]):
+                for target in ((None, "", "i", "j", "k") if nu < 4 else (None, "")):
                     facs = {}
                     for u in us:
                         facs[u] = facs.get(u, 0) + 1
-                    text = " ".join(f"U:{u}" + (f"^{e}" if e > 1 else "") for u, e in facs.items()) + (f" X:{rem}" if rem else "")
+                    text = " ".join(f"U:{u}" + (f"^{e}" if e > 1 else "") for u, e in facs.items()) + (f" {rem}" if rem else "")
                     scn = Scenario(f"sweep {text} {target}", "R20a", "generated", text, target=target)
                     try:
                         tg, per_term = expected_sets(scn)
@@ -834,6 +1028,8 @@ def sweep(ctx):
                         bad.setdefault("value", []).append(f"{text} [targets {target}]: foreign factor {e}")
                     if seen != [scn.akey] or run.w.clash:
                         bad.setdefault("assumptions", []).append(f"{text} [targets {target}]")
+                    if target is None and any(all(is_tens(b) for b in d) and einstein(d) != tg for c, d in got):
+                        bad.setdefault("targets", []).append(f"{text} -> {show_monos(got)}")
                     # the same term with delta evaluation requested: the value must survive
                     outs = evaluate(ctx, run, scn, fnnode, ed=True)
                     if len(outs) != 1 or outs[0].kind != "return":
@@ -845,11 +1041,12 @@ def sweep(ctx):
                             bad.setdefault("evaluated", []).append(f"{text} [targets {target}] -> {show_monos(got)}")
                     except _Unknown as e:
                         bad.setdefault("evaluated", []).append(f"{text} [targets {target}]: foreign factor {e}")
-    ctx.floor("R20a", "generated terms evaluated", n, 3000)
+    ctx.floor("R20a", "generated terms evaluated", n, 7000)
     ctx.note(f"sweep: {n} generated terms evaluated, {skipped} outside the decided domain")
     for aspect, fact in (("form", "result is a normal form of the reference rewriting"), ("value", "value unchanged for an orthogonal U"),
                          ("assumptions", "assumptions kept"), ("result", "a single result"),
-                         ("evaluated", "value unchanged after the requested delta evaluation")):
+                         ("evaluated", "value unchanged after the requested delta evaluation"),
+                         ("targets", "target indices by sum convention kept")):
         rule = "R20b" if aspect == "assumptions" else "R20c" if aspect == "evaluated" else "R20a"
         ctx.check(rule, fnnode, aspect not in bad, f"{n} generated terms: {fact}",
                   f"{len(bad.get(aspect, []))} of {n} generated terms: {fact} fails, e.g. {bad.get(aspect, [''])[0]}", key=f"sweep {aspect}")
@@ -862,6 +1059,7 @@ def run(ctx):
     if ctx.want("R20c"):
         r20c_request(ctx)
         r20c_term_tables(ctx)
+        r20c_evaluate_deltas(ctx)
 
 
 def run_thorough(ctx):
